@@ -127,8 +127,9 @@ func WaitPasses(minBegun int64, timeout time.Duration) bool {
 
 // Checker is a running CRL checker.
 type Checker struct {
-	C    *crl.CRLRevocationChecker
-	Opts Opts
+	C       *crl.CRLRevocationChecker
+	Opts    Opts
+	stopped bool
 }
 
 // Start provisions a checker and waits for the initial update pass of its ticker goroutine.
@@ -144,7 +145,14 @@ func Start(o Opts) (*Checker, error) {
 	return &Checker{C: c, Opts: o}, nil
 }
 
-func (c *Checker) Stop() { _ = c.C.Cleanup() }
+// Stop runs Cleanup once (Caddy calls Cleanup exactly once per provisioned module).
+func (c *Checker) Stop() {
+	if c.stopped {
+		return
+	}
+	c.stopped = true
+	_ = c.C.Cleanup()
+}
 
 // Restart = Cleanup + Provision on the same work_dir.
 func (c *Checker) Restart() error {
@@ -154,6 +162,7 @@ func (c *Checker) Restart() error {
 		return err
 	}
 	c.C = n.C
+	c.stopped = false
 	return nil
 }
 
